@@ -139,6 +139,23 @@ def e2e_job(job, repo, scratch):
     except subprocess.TimeoutExpired:
         return {"job": job, "status": "pytest-timeout", "src": src}
     bad = [("pytest:" + s, m) for s, m in L.judge_file(src, fname, pr)]
+    if any(s == "pytest:test-failed:AssertionError:value" for s, _ in bad) and res.get("pre", {}).get("file"):
+        # is the failing assertion stale because statement minimisation (which runs after assertion
+        # generation) removed a state-changing statement?  Only a verified cause gets the narrow class.
+        try:
+            pre_src = Path(res["pre"]["file"]).read_text()
+            pre_pr = L.run_pytest([fname], str(out / "pre"), [str(SUT_DIR)], timeout=300)
+            stale = L.stale_after_minimisation(src, pr, pre_src, pre_pr, fname)
+        except Exception:  # noqa: BLE001
+            stale = {}
+        new_bad = []
+        for s, m in bad:
+            fn_ = next((k for k in stale if f"::{k} reported" in m), None)
+            if s == "pytest:test-failed:AssertionError:value" and fn_ is not None:
+                new_bad.append(("pytest:test-failed:AssertionError:stale-after-minimisation", m + " || " + stale[fn_]))
+            else:
+                new_bad.append((s, m))
+        bad = new_bad
     for where, name, kind in L.static_unbound(src):
         bad.append((f"unbound-name:{kind}", f"{fname}::{where} uses `{name}`, which nothing in the file binds"))
     import ast as _ast
